@@ -167,7 +167,16 @@ def establish_case(rnd, host_active, first):
             h.enable()
         pr.wire.connect()
         ok = pr.both_communicating()
-        time.sleep(0.05)          # the peer's S1F14 for the own S1F13 may still be on its way
+        # the peer's S1F14 for the own S1F13 may still be on its way: wait until the wire has been quiet for a while
+        deadline = time.monotonic() + 5
+        last, since = None, time.monotonic()
+        while time.monotonic() < deadline:
+            now = (len(pr.wire.log["a"]), len(pr.wire.log["b"]), pr.wire.queues["a"].qsize(), pr.wire.queues["b"].qsize())
+            if now != last:
+                last, since = now, time.monotonic()
+            elif time.monotonic() - since > 0.25:
+                break
+            time.sleep(0.01)
         a, b = pr.wire_kinds()
         sel = pr.host.protocol.connection_state.current.value == 3 and pr.equip.protocol.connection_state.current.value == 3
     finally:
@@ -187,6 +196,13 @@ def service_case(rnd, host_active):
 
     def call(fn, *args):
         return common.with_deadline(lambda: fn(*args), 30.0)
+
+    def until(cond, seconds=3.0):
+        """events travel on their own threads: give them time, then a little more to catch duplicates"""
+        deadline = time.monotonic() + seconds
+        while time.monotonic() < deadline and not cond():
+            time.sleep(0.005)
+        time.sleep(0.1)
 
     try:
         pr.host.enable()
@@ -214,7 +230,7 @@ def service_case(rnd, host_active):
             problems.append("enable_alarm(5) did not enable the alarm")
         th, _ = None, None
         call(e.set_alarm, 5)
-        time.sleep(0.1)
+        until(lambda: len(pr.alarms) >= 1)
         if pr.alarms != [(5, 129)]:
             problems.append(f"the host received alarm reports {pr.alarms!r} for one set_alarm(5)")
         lst = call(h.list_alarms, [5])
@@ -228,14 +244,14 @@ def service_case(rnd, host_active):
         call(h.go_online)
         if e.control_state.current.value != 8:
             problems.append("go_online did not put the equipment ONLINE/REMOTE")
-        time.sleep(0.15)
+        until(lambda: len(pr.events) >= 1)
         want = [(3, [(10, 123), (20, 77)])]
         if pr.events != want:
             problems.append(f"one CONTROL_STATE_REMOTE event was triggered while subscribed; the host received {pr.events!r}")
         e.status_variables[10].value = 124
         e.trigger_collection_events([3])
         e.trigger_collection_events([2])         # not subscribed: nothing
-        time.sleep(0.2)
+        until(lambda: len(pr.events) >= 2)
         want.append((3, [(10, 124), (20, 77)]))
         if pr.events != want:
             problems.append(f"after a second trigger the host has received {pr.events!r}")
@@ -243,14 +259,14 @@ def service_case(rnd, host_active):
         call(h.subscribe_collection_event, 3, [20], 4711)
         del pr.reports[:]
         e.trigger_collection_events([3])
-        time.sleep(0.2)
+        until(lambda: len(pr.reports) >= 2)
         first_rpt = pr.reports[0][1] if pr.reports else None
         want_reports = [(3, first_rpt, [(10, 124), (20, 77)]), (3, 4711, [(20, 77)])]
         if pr.reports != want_reports:
             problems.append(f"an event with two linked reports was triggered once; the host received {pr.reports!r}, expected {want_reports!r}")
         want += [(3, [(10, 124), (20, 77)]), (3, [(20, 77)])]
         ack = call(h.send_remote_command, "START", [])
-        time.sleep(0.1)
+        until(lambda: len(pr.started) >= 1)
         if pr.started != [1] or int(ack.HCACK.get()) != 4:
             problems.append(f"send_remote_command('START') -> HCACK {ack.HCACK.get()!r}, the equipment's callback ran {len(pr.started)} times")
         # either side is disabled and enabled again
